@@ -921,6 +921,9 @@ def run(ctx):
     if unknown or gone:
         ctx.mark_broken('classification:exports', f'unclassified exports: {unknown}; classified but no longer exported: {gone}')
     ctx.cov['classification'] = {k: sorted(n for n, v in CLASSIFICATION.items() if v == k) for k in ('reorder', 'semantic', 'special', 'api', 'other')}
+    err = tables.regenerate(['GaugeTables'])
+    if err['GaugeTables']:
+        ctx.mark_broken('table:GaugeTables', err['GaugeTables'])
     ctx.set_obligations(coq.compile_props('C06'))
     mult = 1 if ctx.tier == 'quick' else 10
     configs = make_configs(cirq, mods)
